@@ -829,7 +829,7 @@ namespace ip {
 				// update cwnd based on the number of bytes ACKed.
 				// every round-trip, increase the window size by one packet
 				// (MSS)
-				m_cwnd += m_mss * acked_bytes / m_cwnd;
+				m_cwnd += int(std::int64_t(m_mss) * acked_bytes / m_cwnd);
 
 				// TODO: implement slow-start
 
